@@ -638,7 +638,7 @@ def _level(stmts, sym):
         elif k == "filterblock":
             for a in st.get("args", []): _expr_loads(a, sym)
         elif k == "autoescape":
-            _expr_loads(st["e"], sym)       # the body is a scope of its own (the extension wraps it in a Scope node)
+            pass      # a scope of its own (the extension wraps it in a Scope node); even the switch expression is loaded there
         elif k in ("extends", "include", "do"): _expr_loads(st["e"], sym)
         elif k == "import":
             _expr_loads(st["e"], sym); sym.store(st["target"])
@@ -669,6 +669,7 @@ def _nested(stmts, sym):
             if "else" in st: _nested(st["else"], sym)
         elif k == "autoescape":
             b = _Sym(sym)
+            _expr_loads(st["e"], b)
             _level(st["body"], b)
             st["pre"] = b.undef_names()
             _nested(st["body"], b)
